@@ -80,6 +80,15 @@ pub fn declared(
                     }
                 }
             }
+            Stmt::IfExists(p) => {
+                if let Some(a) = join_norm(&cwd, p) {
+                    if read(&a).is_some() {
+                        deps.push(a);
+                    } else {
+                        ifc.push(a);
+                    }
+                }
+            }
             Stmt::Always => always = true,
             Stmt::Stamp { .. } => csum = true,
             Stmt::Chdir(d) => {
